@@ -102,6 +102,12 @@ def conc_scenarios(tier, rng):
     for p in two:
         scs.append({"init": BOOK3, "progs": p})
     scs.append({"init": BOOK_PLAIN, "progs": [[Match(1), Match(2)], [Amend(2, 1), Cancel(3)]]})
+    # nearly empty books: the counters are close to zero, so a lost or doubled update shows as a wrap
+    one = [S(1, 1)]
+    for w in ([Match(1)], [Cancel(1)], [Amend(1, 2)], [Match(1), Match(1)]):
+        scs.append({"init": one, "progs": [w, [Add(S(2, 1)), Cancel(2)]]})
+        scs.append({"init": one, "progs": [w, [Add(I(2, 1, 1)), Match(1)]]})
+    scs.append({"init": [I(1, 1, 1)], "progs": [[Match(2)], [Add(S(2, 1)), Cancel(2)], [Cancel(1)]]})
     if tier == "thorough":
         small = [Match(2), Match(4), Cancel(1), Amend(1, 1), Amend(2, 1), Add(S(4, 2))]
         for a in range(len(small)):
